@@ -306,6 +306,9 @@ def hex_repr(x, n_word=None, padding=None, base=10, prefix='0x'):
     else:
         raise ValueError('base {base} for input value is not supported!')
 
+    if prefix is None:
+        prefix = ''     # (no prefix selected)
+
     if n_word is not None:
         val = prefix + '{0:0{1}X}'.format(x, int(np.ceil(n_word/4)))
     elif padding is not None:
